@@ -215,7 +215,10 @@ func callableMatrix() []callCase {
 // The programs are the same on every run (the matrix is fixed), so are gc's records: the quick
 // tier takes them from a cache file in the user cache directory, keyed by the sources and the
 // Go version, when there is one; the thorough tier always runs gc and rewrites the file.
-func gcCallables(useCache bool) (map[string]string, error) {
+// gcExtra is one more Go function body (statements) to run under gc with the batch.
+type gcExtra struct{ key, body string }
+
+func gcCallables(useCache bool, extra []gcExtra) (map[string]string, error) {
 	dir, err := os.MkdirTemp("", "verif-c05-gc-")
 	if err != nil {
 		return nil, err
@@ -249,6 +252,12 @@ func gcCallables(useCache bool) (map[string]string, error) {
 			src.WriteString(s + "\n")
 			fmt.Fprintf(&tab, "\tcase_%d,\n", i)
 		}
+	}
+	for _, e := range extra {
+		i := len(keys)
+		keys = append(keys, e.key)
+		fmt.Fprintf(&src, "func case_%d() {\n%s\n}\n\n", i, e.body)
+		fmt.Fprintf(&tab, "\tcase_%d,\n", i)
 	}
 	src.WriteString("var cases = []func(){\n" + tab.String() + "}\n\n")
 	src.WriteString(`func main() {
@@ -389,7 +398,8 @@ func callableCases(c *hx.Ctx) error {
 	dump := os.Getenv("VERIF_C05_DUMP") != ""
 	t0 := time.Now()
 	all := callableMatrix()
-	gc, err := gcCallables(c.Quick())
+	nested := nestedMatrix()
+	gc, err := gcCallables(c.Quick(), nestedGc(nested))
 	if err != nil {
 		return err
 	}
@@ -490,6 +500,7 @@ func callableCases(c *hx.Ctx) error {
 			}
 		}
 	}
+	nestedCases(c, nested, gc)
 	if dump {
 		fmt.Fprintln(os.Stderr, "TIMING total", time.Since(t0), len(all), "cases", len(gc), "gc programs")
 	}
